@@ -240,11 +240,22 @@ func segments(d pipe.DirPlan, n, w int) int {
 	return n/minSeg + w
 }
 
-// loginEstimateUs bounds the simulated duration of a fault-free login.
-func loginEstimateUs(p *Plan) int {
-	est := maxOf([]int{p.ConnectUs, 1000}, 0) + p.AcceptDelayUs
+// sessionEstimateUs bounds the simulated duration of one fault-free login,
+// counted from the connect.
+func sessionEstimateUs(p *Session) int {
+	est := maxOf([]int{p.ConnectUs, 1000}, 0)
 	est += segments(p.Link.AB, len(p.Call)+len(p.Pass)+2, 2) * (maxOf(p.Link.AB.LatUs, 100) + 1)
 	est += segments(p.Link.BA, len(prompt1)+len(prompt2), 2) * (maxOf(p.Link.BA.LatUs, 100) + 1)
+	if p.Arm == "cl" {
+		// the scripted client's own pauses keep the listener's login waiting
+		est += (len(p.Client.Cuts) + 3) * maxOf(p.Client.DelayUs, 0)
+	}
+	return est
+}
+
+// loginEstimateUs bounds the simulated duration of a fault-free login.
+func loginEstimateUs(p *Plan) int {
+	est := sessionEstimateUs(&p.Session) + p.AcceptDelayUs
 	if p.Arm == "ls" {
 		for i := 0; i < 2; i++ {
 			est += core.TapeAt(p.Server.PromptDelayUs, i, 0)
@@ -253,8 +264,196 @@ func loginEstimateUs(p *Plan) int {
 	return est
 }
 
+var readVias = []string{"copy", "copybuf", "writeto", "readall", "bufio", "bufio-writeto"}
+
+// genVia draws how the applications consume and feed the connection.
+func genVia(r *core.Rand, st *Stream) {
+	if r.Chance(0.45) {
+		st.ReadVia = readVias[r.Pick(6, 2, 3, 2, 4, 3)]
+	}
+	switch r.Pick(14, 3, 2, 2) {
+	case 1:
+		st.WriteVia = "copy"
+	case 2:
+		st.WriteVia = "readfrom"
+	case 3:
+		st.WriteVia = "bufio"
+	}
+	if st.ReadVia != "" || st.WriteVia != "" {
+		st.ViaBuf = []int{16, 64, 512, 4096, 32768}[r.Intn(5)]
+		if r.Chance(0.3) {
+			st.ViaBuf = r.Range(1, 9000)
+		}
+	}
+}
+
+func genCloseSpec(r *core.Rand, gapScale int) CloseSpec {
+	var c CloseSpec
+	switch r.Pick(11, 8, 1) {
+	case 1:
+		c.N = 2
+	case 2:
+		c.N = 3
+	}
+	if c.N > 1 && r.Chance(0.35) {
+		c.GapUs = r.Intn(gapScale + 1)
+	}
+	c.Unblock = r.Chance(0.3)
+	return c
+}
+
+// genClose draws how the session ends.
+func genClose(r *core.Rand, p *Session, gapScale int) {
+	p.CloseFirst = []string{"client", "server", "both"}[r.Pick(4, 4, 2)]
+	p.CliClose, p.SrvClose = genCloseSpec(r, gapScale), genCloseSpec(r, gapScale)
+}
+
+// tagPayload makes the payloads of a run with several sessions
+// distinguishable: every 24 bytes it overwrites 5 bytes with a tag that names
+// the session and the direction.
+func tagPayload(r *core.Rand, data []byte, k int, dir byte) {
+	for i := r.Intn(12); i+5 <= len(data); i += 24 {
+		copy(data[i:], []byte{sessionTag[0], sessionTag[1], byte('A' + k), dir, 0x1f})
+	}
+}
+
+// generateMulti: several sessions through one listener, sequential and
+// overlapping.
+func generateMulti(r *core.Rand) Plan {
+	var p Plan
+	n := 2 + r.Pick(3, 4, 3, 2)
+	// the run's time scale: dial offsets, holds and write pauses are drawn
+	// from it, so that the sessions' phases interleave
+	T := []int{3000, 60000, 1500000, 6000000}[r.Intn(4)]
+	shape := r.Pick(3, 2, 5) // all at once | one after the other | mixed
+	ss := make([]Session, n)
+	for k := range ss {
+		s := &ss[k]
+		s.Arm = []string{"ll", "cl"}[r.Pick(7, 3)]
+		s.Call, s.Pass = genCall(r), genPass(r)
+		if r.Chance(0.8) && (len(s.Call) > 200 || len(s.Pass) > 200) {
+			s.Call, s.Pass = Bin(core.Choice(r, someCalls)), genPass(r)
+		}
+		s.C2S, s.S2C = genStream(r, false), genStream(r, false)
+		for _, st := range []*Stream{&s.C2S, &s.S2C} {
+			if len(st.Data) < 12 && r.Chance(0.7) {
+				st.Data = genPayload(r, false)
+			}
+			if r.Chance(0.6) {
+				// writes spread over the run's time scale
+				if len(st.Chunks) < 2 && len(st.Data) > 1 {
+					st.Chunks = core.Tape(r, r.Range(2, 5), func() int { return r.Range(1, len(st.Data)/2+1) })
+				}
+				st.DelayUs = core.Tape(r, r.Range(1, 4), func() int { return r.Intn(T/2 + 1) })
+			}
+			genVia(r, st)
+		}
+		tagPayload(r, s.C2S.Data, k, 'c')
+		tagPayload(r, s.S2C.Data, k, 's')
+		s.Link = pipe.Plan{AB: genDir(r), BA: genDir(r)}
+		if r.Chance(0.3) {
+			s.Quiet = true
+			s.QuietUs = r.Pick(1, 1) * r.Intn(200000)
+		}
+		if r.Chance(0.7) {
+			s.DialDelayUs = r.Intn(T)
+		}
+		if r.Chance(0.3) {
+			s.ConnectUs = r.Intn(200000)
+		}
+		if r.Chance(0.7) {
+			s.HoldUs = r.Intn(2 * T)
+		}
+		if k > 0 {
+			switch shape {
+			case 1:
+				s.After = k
+			case 2:
+				if r.Chance(0.6) {
+					s.After = r.Range(1, k)
+				}
+			}
+		}
+		genClose(r, s, T)
+		s.API = core.Choice(r, apis)
+		s.TimeoutMs = genTimeoutMs(r)
+		switch s.API {
+		case "dialer-url", "transport-url":
+			s.Param = r.Bool()
+		case "dialer-urlctx", "transport-urlctx":
+			s.Param = r.Bool()
+			if r.Chance(0.8) {
+				s.CtxMs = genTimeoutMs(r)
+			}
+		}
+		if s.Arm == "cl" {
+			genClient(r, s)
+		}
+	}
+	p.Acceptors = 1 + r.Pick(6, 2, 1)
+	if r.Chance(0.3) {
+		p.AcceptDelayUs = r.Intn(300000)
+	}
+	if r.Chance(0.4) {
+		p.AcceptGapUs = core.Tape(r, r.Range(1, 3), func() int { return r.Intn(T/4 + 1) })
+	}
+	// Logins queue behind each other in the accept loop: every dial gets a
+	// deadline that leaves room for all of them (a dial that still meets its
+	// deadline with a conforming listener is evidence, not a violation).
+	total := p.AcceptDelayUs
+	for k := range ss {
+		total += sessionEstimateUs(&ss[k]) + maxOf(p.AcceptGapUs, 0) + 1000
+	}
+	need := (2*total)/1000 + 1000
+	for k := range ss {
+		s := &ss[k]
+		if need > 4000 && s.API == "dial" {
+			s.API = "dialtimeout"
+		}
+		if need > 25000 && (s.API == "transport-url" || s.API == "transport-urlctx") {
+			s.Param = true
+		}
+		if s.TimeoutMs < need {
+			s.TimeoutMs = need + r.Intn(5000)
+		}
+		if s.CtxMs > 0 && s.CtxMs < need {
+			s.CtxMs = need + r.Intn(5000)
+		}
+	}
+	p.Session = ss[0]
+	p.More = ss[1:]
+	return p
+}
+
+// genClient draws the scripted client of arm "cl".
+func genClient(r *core.Rand, p *Session) {
+	c := &p.Client
+	c.Blind = r.Chance(0.6)
+	total := len(p.Call) + len(p.Pass) + 2 + len(p.C2S.Data)
+	switch r.Pick(4, 3, 3) {
+	case 0: // one write
+	case 1: // a few cuts anywhere
+		c.Cuts = core.Tape(r, r.Range(1, 5), func() int { return r.Intn(total + 1) })
+	case 2: // cuts around the line ends
+		l1 := len(p.Call) + 1
+		l := l1 + len(p.Pass) + 1
+		for _, x := range []int{l1 - 1, l1, l1 + 1, l - 1, l, l + 1, l + r.Range(2, 40)} {
+			if r.Bool() {
+				c.Cuts = append(c.Cuts, x)
+			}
+		}
+	}
+	if r.Chance(0.4) {
+		sc := []int{50, 5000, 400000}[r.Intn(3)]
+		c.DelayUs = core.Tape(r, r.Range(1, 4), func() int { return r.Intn(sc) })
+	}
+}
+
 func generate(tier string, r *core.Rand) Plan {
 	big := tier == "thorough"
+	if r.Chance(0.4) {
+		return generateMulti(r)
+	}
 	var p Plan
 	p.Arm = []string{"ll", "ls", "cl"}[r.Pick(9, 7, 4)]
 	p.Call, p.Pass = genCall(r), genPass(r)
@@ -264,7 +463,12 @@ func generate(tier string, r *core.Rand) Plan {
 		p.Quiet = true
 		p.QuietUs = r.Pick(1, 1) * r.Intn(200000)
 	}
-	p.CloseFirst = core.Choice(r, []string{"client", "server"})
+	genVia(r, &p.C2S)
+	genVia(r, &p.S2C)
+	genClose(r, &p.Session, 200000)
+	if r.Chance(0.3) {
+		p.HoldUs = r.Intn(300000)
+	}
 	if r.Chance(0.4) {
 		p.DialDelayUs = r.Intn(1000000)
 	}
@@ -328,26 +532,7 @@ func generate(tier string, r *core.Rand) Plan {
 		}
 	}
 	if p.Arm == "cl" {
-		c := &p.Client
-		c.Blind = r.Chance(0.6)
-		total := len(p.Call) + len(p.Pass) + 2 + len(p.C2S.Data)
-		switch r.Pick(4, 3, 3) {
-		case 0: // one write
-		case 1: // a few cuts anywhere
-			c.Cuts = core.Tape(r, r.Range(1, 5), func() int { return r.Intn(total + 1) })
-		case 2: // cuts around the line ends
-			l1 := len(p.Call) + 1
-			l := l1 + len(p.Pass) + 1
-			for _, x := range []int{l1 - 1, l1, l1 + 1, l - 1, l, l + 1, l + r.Range(2, 40)} {
-				if r.Bool() {
-					c.Cuts = append(c.Cuts, x)
-				}
-			}
-		}
-		if r.Chance(0.4) {
-			sc := []int{50, 5000, 400000}[r.Intn(3)]
-			c.DelayUs = core.Tape(r, r.Range(1, 4), func() int { return r.Intn(sc) })
-		}
+		genClient(r, &p.Session)
 	}
 
 	if !hostile && p.Arm != "cl" {
